@@ -182,7 +182,7 @@ class Average(Factory, Container):
 
         if math.isinf(ca_plus_cb):
             self.mean = float("nan")
-        elif ca_plus_cb > 0.0:
+        elif ca_plus_cb > 0.0 and q.shape[0] > 0:
             mb = numpy.average(q, weights=weights)
             self.mean = float((ca * ma + (ca_plus_cb - ca) * mb) / ca_plus_cb)
 
